@@ -1,5 +1,256 @@
 package main
 
-import "regexp"
+// Model of package regexp.
+//
+// Patterns are concrete strings (they are compiled by Go's own regexp/syntax,
+// so the pattern semantics are the real ones). Subjects may have symbolic
+// bytes: MatchString is then encoded exactly, as the Bool term "the compiled
+// NFA (regexp/syntax.Prog) accepts", by simulating the program over the
+// fixed-length byte sequence with one Bool term per (position, instruction).
+// Subjects are restricted to ASCII (bytes < 0x80, assumed on the path), where a
+// byte is a rune. Symbolic *patterns* fall back to an uninterpreted outcome.
+
+import (
+	"fmt"
+	"regexp"
+	"regexp/syntax"
+	"unicode"
+)
 
 func regexpMatchString(pat, s string) (bool, error) { return regexp.MatchString(pat, s) }
+
+// reObj is what a *regexp.Regexp points to in the engine.
+type reObj struct {
+	pat  string
+	re   *regexp.Regexp
+	prog *syntax.Prog
+}
+
+func compileRe(pat string) (*reObj, error) {
+	re, err := regexp.Compile(pat)
+	if err != nil {
+		return nil, err
+	}
+	rx, err := syntax.Parse(pat, syntax.Perl)
+	if err != nil {
+		return nil, err
+	}
+	prog, err := syntax.Compile(rx.Simplify())
+	if err != nil {
+		return nil, err
+	}
+	return &reObj{pat: pat, re: re, prog: prog}, nil
+}
+
+func reOf(v Value) *reObj {
+	ptr, ok := v.(Ptr)
+	if !ok || ptr == nil {
+		panic(targetPanic{msg: "runtime error: invalid memory address or nil pointer dereference (nil *regexp.Regexp)"})
+	}
+	ro, ok := (*ptr).(*reObj)
+	if !ok {
+		panic(engineError("regexp object of unknown origin"))
+	}
+	return ro
+}
+
+// matchTerm: Bool term for "prog matches somewhere in b" (unanchored search, leftmost semantics irrelevant for a yes/no answer).
+func (p *Path) matchTerm(ro *reObj, b []*Term) *Term {
+	ts := p.e.ts
+	prog := ro.prog
+	n := len(b)
+	ni := len(prog.Inst)
+	// ASCII restriction
+	for _, t := range b {
+		if !t.isConst {
+			p.assumeQuiet(ts.BVCmp("bvult", t, ts.BV(8, 0x80)))
+		} else if t.u >= 0x80 {
+			panic(engineError("regexp subject with non-ASCII byte"))
+		}
+	}
+	isWord := func(t *Term) *Term {
+		r := ts.False
+		rg := func(lo, hi byte) *Term {
+			return ts.And(ts.BVCmp("bvuge", t, ts.BV(8, uint64(lo))), ts.BVCmp("bvule", t, ts.BV(8, uint64(hi))))
+		}
+		r = ts.Or(r, rg('a', 'z'))
+		r = ts.Or(r, rg('A', 'Z'))
+		r = ts.Or(r, rg('0', '9'))
+		r = ts.Or(r, ts.Eq(t, ts.BV(8, '_')))
+		return r
+	}
+	// emptyCond(pos, op): condition under which the empty-width assertions op hold at pos
+	emptyCond := func(pos int, op syntax.EmptyOp) *Term {
+		c := ts.True
+		if op&syntax.EmptyBeginText != 0 && pos != 0 {
+			return ts.False
+		}
+		if op&syntax.EmptyEndText != 0 && pos != n {
+			return ts.False
+		}
+		if op&syntax.EmptyBeginLine != 0 && pos != 0 {
+			c = ts.And(c, ts.Eq(b[pos-1], ts.BV(8, '\n')))
+		}
+		if op&syntax.EmptyEndLine != 0 && pos != n {
+			c = ts.And(c, ts.Eq(b[pos], ts.BV(8, '\n')))
+		}
+		if op&(syntax.EmptyWordBoundary|syntax.EmptyNoWordBoundary) != 0 {
+			before, after := ts.False, ts.False
+			if pos > 0 {
+				before = isWord(b[pos-1])
+			}
+			if pos < n {
+				after = isWord(b[pos])
+			}
+			boundary := ts.Not(ts.Eq(before, after))
+			if op&syntax.EmptyWordBoundary != 0 {
+				c = ts.And(c, boundary)
+			}
+			if op&syntax.EmptyNoWordBoundary != 0 {
+				c = ts.And(c, ts.Not(boundary))
+			}
+		}
+		return c
+	}
+	runeCond := func(in *syntax.Inst, t *Term) *Term {
+		switch in.Op {
+		case syntax.InstRuneAny:
+			return ts.True
+		case syntax.InstRuneAnyNotNL:
+			return ts.Not(ts.Eq(t, ts.BV(8, '\n')))
+		}
+		fold := syntax.Flags(in.Arg)&syntax.FoldCase != 0
+		one := func(lo, hi rune) *Term {
+			if lo > 0x7f {
+				return ts.False
+			}
+			if hi > 0x7f {
+				hi = 0x7f
+			}
+			return ts.And(ts.BVCmp("bvuge", t, ts.BV(8, uint64(lo))), ts.BVCmp("bvule", t, ts.BV(8, uint64(hi))))
+		}
+		r := ts.False
+		if len(in.Rune) == 1 {
+			r0 := in.Rune[0]
+			r = one(r0, r0)
+			if fold {
+				for r1 := unicode.SimpleFold(r0); r1 != r0; r1 = unicode.SimpleFold(r1) {
+					r = ts.Or(r, one(r1, r1))
+				}
+			}
+			return r
+		}
+		for i := 0; i+1 < len(in.Rune); i += 2 {
+			r = ts.Or(r, one(in.Rune[i], in.Rune[i+1]))
+		}
+		return r
+	}
+	// reach[pc]: Bool term, thread at pc is alive at the current position (after epsilon closure)
+	matched := ts.False
+	var addClosure func(reach []*Term, pos int, pc uint32, c *Term, depth int)
+	addClosure = func(reach []*Term, pos int, pc uint32, c *Term, depth int) {
+		if c.IsFalse() || depth > 4*ni+8 {
+			return
+		}
+		in := &prog.Inst[pc]
+		switch in.Op {
+		case syntax.InstAlt, syntax.InstAltMatch:
+			addClosure(reach, pos, in.Out, c, depth+1)
+			addClosure(reach, pos, in.Arg, c, depth+1)
+		case syntax.InstCapture, syntax.InstNop:
+			addClosure(reach, pos, in.Out, c, depth+1)
+		case syntax.InstEmptyWidth:
+			addClosure(reach, pos, in.Out, ts.And(c, emptyCond(pos, syntax.EmptyOp(in.Arg))), depth+1)
+		case syntax.InstFail:
+		default: // Match, Rune*: real states
+			reach[pc] = ts.Or(reach[pc], c)
+		}
+	}
+	cur := make([]*Term, ni)
+	for pos := 0; pos <= n; pos++ {
+		next := make([]*Term, ni)
+		for i := range next {
+			next[i] = ts.False
+		}
+		if pos == 0 {
+			for i := range cur {
+				cur[i] = ts.False
+			}
+		}
+		// a new attempt may start at every position (unanchored search)
+		addClosure(cur, pos, uint32(prog.Start), ts.True, 0)
+		for pc := 0; pc < ni; pc++ {
+			c := cur[pc]
+			if c.IsFalse() {
+				continue
+			}
+			in := &prog.Inst[pc]
+			switch in.Op {
+			case syntax.InstMatch:
+				matched = ts.Or(matched, c)
+			case syntax.InstRune, syntax.InstRune1, syntax.InstRuneAny, syntax.InstRuneAnyNotNL:
+				if pos < n {
+					addClosure(next, pos+1, in.Out, ts.And(c, runeCond(in, b[pos])), 0)
+				}
+			}
+		}
+		cur = next
+	}
+	return matched
+}
+
+func init() {
+	newRe := func(p *Path, ro *reObj) Value {
+		cell := new(Value)
+		*cell = ro
+		return Ptr(cell)
+	}
+	externals["regexp.Compile"] = func(p *Path, fr *frame, a []Value) Value {
+		pat := a[0].(*Str)
+		cp, ok := pat.Concrete()
+		if !ok || pat.opaque {
+			panic(engineError("regexp.Compile of a symbolic pattern (patterns must be concrete; subjects may be symbolic)"))
+		}
+		ro, err := compileRe(cp)
+		if err != nil {
+			return Tuple{nilPtr, p.errorValue(p.e.strOf(err.Error()))}
+		}
+		return Tuple{newRe(p, ro), Iface{}}
+	}
+	externals["regexp.MustCompile"] = func(p *Path, fr *frame, a []Value) Value {
+		pat := a[0].(*Str)
+		cp, ok := pat.Concrete()
+		if !ok {
+			panic(engineError("regexp.MustCompile of a symbolic pattern"))
+		}
+		ro, err := compileRe(cp)
+		if err != nil {
+			panic(targetPanic{msg: "regexp: Compile(" + cp + "): " + err.Error()})
+		}
+		return newRe(p, ro)
+	}
+	externals["(*regexp.Regexp).MatchString"] = func(p *Path, fr *frame, a []Value) Value {
+		ro := reOf(a[0])
+		s := a[1].(*Str)
+		if s.opaque {
+			panic(engineError("regexp match on opaque string"))
+		}
+		if cs, ok := s.Concrete(); ok {
+			return p.e.ts.Bool(ro.re.MatchString(cs))
+		}
+		p.encoded["regexp NFA "+fmt.Sprintf("%q", ro.pat)]++
+		return p.matchTerm(ro, s.b)
+	}
+	externals["(*regexp.Regexp).String"] = func(p *Path, fr *frame, a []Value) Value {
+		return p.e.strOf(reOf(a[0]).pat)
+	}
+	externals["(*regexp.Regexp).ReplaceAllString"] = func(p *Path, fr *frame, a []Value) Value {
+		ro := reOf(a[0])
+		src, ok1 := a[1].(*Str).Concrete()
+		repl, ok2 := a[2].(*Str).Concrete()
+		if !ok1 || !ok2 {
+			panic(engineError("regexp.ReplaceAllString on symbolic strings is not modelled"))
+		}
+		return p.e.strOf(ro.re.ReplaceAllString(src, repl))
+	}
+}
